@@ -282,6 +282,9 @@ class Materialised:
                 src = f"{n} = typing.NewType({n!r}, {inner})\n"
             elif k == "alias":
                 src = f"{n} = typing.TypeAliasType({n!r}, {inner})\n"
+            elif spec.get("lazy"):
+                # PEP 695: the value is an expression evaluated on first use (it may mention the alias itself)
+                src = f"type {n} = {inner}\n"
             else:
                 src = f"{n} = typing.TypeAliasType({n!r}, {inner!r})\n"
             self._exec(spec["mod"], src)
